@@ -20,3 +20,14 @@ for P, st in res:
     for ob in P.obligations:
         cnt["ob:" + ob.name] += 1
 print(cnt.most_common(40))
+if len(sys.argv) > 4 and sys.argv[4] == "discharge":
+    from pyvc.run import discharge
+    for P, st in res:
+        for ob in P.obligations:
+            r = discharge(ob, int(sys.argv[5]) if len(sys.argv) > 5 else 4000, 0, fallbacks=False)
+            if len(sys.argv) > 6 and r[0] != sys.argv[6]:
+                continue
+            if r[0] != "discharged":
+                print("==", ob.name, r[0], ob.meta, "path", P.path_id)
+                for a in ob.assumptions[-25:]:
+                    print("    ", str(a)[:220].replace("\n", " "))
